@@ -165,7 +165,9 @@ def gen_model(rng, want_mc=None, nports=None, clash=False, mc_names=None, shadow
     if mc_on:
         mcc = {'on': True, 'port': mc_name, 'claim': claim, 'grant': ['Ok'], 'release': release}
     cfg = {'enc': cns + ['Comp'], 'prov': pcfg, 'req': rcfg, 'mc': mcc, 'origin': rng.choice(['create', 'import']),
-           'prefix': rng.choice([[], [], ['My'], ['Vendor', 'Lib']]), 'suffix': rng.choice(['Shell', 'AdvShell']), 'base': 'Mod'}
+           'prefix': rng.choice([[], [], ['My'], ['Vendor', 'Lib']]), 'suffix': rng.choice(['Shell', 'AdvShell']), 'base': 'Mod',
+           # where the Dezyne file lives is not part of any generated name: the output base name is its stem
+           'dir': rng.choice(['', '', './', 'models/sub/', '/abs/path.d/', '../'])}
     return decls, cfg, fields.index('Ok')
 
 
